@@ -4,6 +4,9 @@ boxes are minimal; overlap slices are exact.
 Shape (C): full Cartesian products
     family x size alphabet x axis ratio x angle x (annulus ratio) x centre (integer part x fractional part^2)
     x method {exact, center, subpixel s}
+    x representation of the rotation angle {float radians, np.float64, int, Quantity[rad], Angle[rad] (bit-identical to the
+      float aperture: every centre) ; Quantity[deg], Quantity[arcmin] (+ Angle of the same number and unit, bit-identical;
+      judged against the reference at the radian value: first centre group)}
 executed on PixelAperture.to_mask / .bbox / .area, compared with mcphot/ref/geometry.py
 (polygon∩disk line integral; counted sub-pixel centres with an ambiguity interval; rational
 minimal-box rule), and -- always exhaustive -- all small integer boxes x all small image shapes for
@@ -25,14 +28,22 @@ LEVEL = 'exploration'
 RULE = ('full Cartesian product per shape family: size x axis-ratio x angle x annulus-ratio x centre (integer part x '
         'fractional part of x x fractional part of y) x method; every aperture is built with a list of positions (one '
         'group = a diagonal of the x-fraction x y-fraction table) and additionally as a scalar aperture for the first position of each group. '
+        'For the four families with a rotation angle the angle is additionally given in every other documented representation: '
+        'the same radian number as np.float64 / int (integer-valued angles) / Quantity[rad] / Angle[rad] for every shape x centre group x method '
+        '(quick; thorough: every group up to size 30, first group beyond), demanding boxes, area and masks bit-identical to the float aperture; '
+        'and as Quantity[deg] / Quantity[arcmin] (angle alphabet written in degrees) for every shape x method x first centre group, judged '
+        'against the reference evaluated at the radian value like any other case, with the Angle of the same number and unit bit-identical. '
+        'A representation case is non-trivial when the angle is not 0. '
         'A mask case is non-trivial when its data contain a weight strictly between 0 and 1 (exact / subpixel) or at '
-        'least one pixel equal to 1 (center); a bounding-box case and a parameter re-assignment case (consecutive shapes of a unit: fill the caches, re-assign all parameters, compare with a fresh aperture) always; an overlap case when box and image '
+        'least one pixel equal to 1 (center); a bounding-box case and a parameter re-assignment case (consecutive shapes of a unit, size <= 30: every read -- bbox, area, to_mask exact / center / subpixel -- fills the caches, then every parameter and the positions are assigned ONE AT A TIME, positions first or last, and after every single assignment that leaves a valid aperture every read is compared with a fresh aperture of the same parameters; the representation of theta before x the representation assigned x the order run through their full 6 x 6 x 2 product over 72 consecutive shapes) always; an overlap case when box and image '
         'partially overlap (neither disjoint nor box inside image); cases are distinct product indices.')
 ASSUMPTIONS = [
     'numpy elementwise arithmetic, math.atan2/sqrt and fractions.Fraction are trusted',
     'the reference (mcphot/ref/geometry.py) is validated by selftest/test_geometry.py against 1200^2 sub-sampling, '
     'chord integration and parametric extents',
     'the geometry kernels are tested as compiled from photutils/geometry/*.c (no Cython here: a .pyx edit is not rebuilt)',
+    'astropy.units / astropy.coordinates.Angle construct the angle objects; the radian value of an angle given in degrees / arcmin is '
+    'math.radians(deg) (the reference tolerances absorb a few ulp of difference to the conversion the implementation uses)',
     'sizes are bounded by 25 px (quick) / 300 px (thorough); parameters between alphabet points are outside the bound',
 ]
 
@@ -582,7 +593,7 @@ def check_reassign(acc, family, p1, pos1, p2, pos2, positions_first=False):
         acc.violation('raises', f'{family}:reassign:{type(e).__name__}', case, repr(e), 'no exception')
 
 
-def check_same_rep(acc, family, p, positions, rep, boxes, by_method, sel):
+def check_same_rep(acc, family, p, positions, rep, boxes, area, by_method, sel):
     """aperture of p with theta given in representation ``rep`` (exactly the same angle) vs the aperture of p"""
     case = {'family': family, 'params': p, 'positions': positions, 'index': 0, 'what': 'trep', 'trep': rep}
     q = dict(p, trep=rep, tval=p.get('tval', p['theta']))
@@ -596,7 +607,7 @@ def check_same_rep(acc, family, p, positions, rep, boxes, by_method, sel):
             acc.violation('theta-representation', f'{family}:{rep}:bbox', dict(case, index=i),
                           repr(ab[i]) if i < len(ab) else len(ab), repr(boxes[i]),
                           f'theta={theta_arg(q)!r} vs theta={theta_arg(p)!r}')
-        if not alt.area == build(family, p, positions).area:
+        if not alt.area == area:
             acc.violation('theta-representation', f'{family}:{rep}:area', case, alt.area, 'area of the same aperture')
         for (method, s), masks in by_method.items():
             am = alt.to_mask(method=method, subpixels=s)
@@ -681,7 +692,7 @@ def run_group(acc, family, p, positions, methods, only=None, stats=None, reps=Tr
         for rep in same_reps(p):
             if only is not None and what == 'trep' and only[2] != rep:
                 continue
-            check_same_rep(acc, family, p, positions, rep, boxes, by_method, sel)
+            check_same_rep(acc, family, p, positions, rep, boxes, area, by_method, sel)
     if what in (None, 'scalar'):
         # the scalar form of position 0 must give the same objects as entry 0 of the list form
         try:
@@ -962,13 +973,27 @@ def describe(tier, seed):
         nmask = sum(sum(len(g) for g in centre_groups(seed, centre_level(fam, tier, size))) * len(methods_for(tier, size, fam))
                     for _, size in shapes)
         fams[fam] = {'shapes': len(shapes), 'aperture_positions': nap, 'masks': nmask}
+        if fam in THETA_FAMILIES:
+            fams[fam]['masks_with_theta_in_deg_or_arcmin'] = sum(
+                len(centre_groups(seed, centre_level(fam, tier, size))[0]) * len(methods_for(tier, size, fam)) * len(TREPS_UNIT)
+                for _, size in shapes)
+            fams[fam]['apertures_rebuilt_in_an_equivalent_theta_representation'] = sum(
+                (len(centre_groups(seed, centre_level(fam, tier, size))) if size <= 30 else 1) * len(same_reps(p))
+                + len(TREPS_UNIT) * 1 for p, size in shapes)
     return {'alphabet': {
         'families': fams,
         'centre_integer_parts': [list(ip) for ip in IPARTS],
         'centre_fraction_x': fx, 'centre_fraction_y': fy,
         'radii': RADII + (BIG if tier == 'thorough' else []),
         'axis_ratios_b_over_a': ELL_Q, 'rect_h_over_w': RECT_Q, 'rect_widths': RECT_W,
-        'thetas': THETAS, 'annulus_ratios': RATIOS + ['0.5 with explicit b_in/h_in = 0.9 b_out/h_out'],
+        'thetas': THETAS, 'thetas_in_degrees_for_unit_representations': THETAS_DEG,
+        'theta_representations': {'main product': 'float (radians)', 'bit-identical to float, every centre group (thorough: first group only beyond size 30)': TREPS_EXACT,
+                                  'judged against the reference, first centre group x every method': TREPS_UNIT,
+                                  'bit-identical to the Quantity of the same number and unit': TREPS_SAME},
+        'reassign': {'reads_before_and_after_every_assignment': ['bbox', 'area'] + [f'to_mask:{m}({k})' for m, k in REASSIGN_METHODS],
+                     'theta_representations_before_x_assigned': REASSIGN_REPS, 'orders': ['parameters then positions', 'positions then parameters'],
+                     'rule': 'consecutive shapes of a unit with size <= 30; judged after every single assignment that leaves a valid aperture'},
+        'annulus_ratios': RATIOS + ['0.5 with explicit b_in/h_in = 0.9 b_out/h_out'],
         'methods': [list(m) for m in (METHODS_T if tier == 'thorough' else METHODS_Q)],
         'methods_circle_families': [list(m) for m in METHODS_T],
         'method_rule': 'subpixels=32 for sizes <= 7.07 (rectangles at all sizes via exact); subpixels >= 3 for sizes <= 25',
